@@ -391,6 +391,20 @@ func natDivCase(c *Ctx, u, v []uint64, tag string) {
 		c.Fail(key(), "operand modified")
 	}
 	poolProblems(c, key())
+	// the quotient goes into the divisor's own buffer (z.Quo(x, z)): div must work on a private copy of v
+	if len(v) > 1 {
+		vb := dirtyBuf(4*len(u) + 8)[:len(v)]
+		copy(vb, toWords(v))
+		var q2, r2 []Word
+		pv, _ := protect(func() { q2, r2 = decimal.VerifDecDiv(vb, nil, uw, vb) })
+		if pv != nil {
+			c.Fail(key()+" quotient-in-divisor-buffer", fmt.Sprintf("panic: %v", pv))
+			theAdvPool.takeProblems()
+		} else if !eqWords(q2, qq) || !eqWords(r2, rr) {
+			c.Fail(key()+" quotient-in-divisor-buffer", fmt.Sprintf("q=%s r=%s, with separate buffers q=%s r=%s", wordsKey(fromWords(q2)), wordsKey(fromWords(r2)), wordsKey(qq), wordsKey(rr)))
+		}
+		poolProblems(c, key())
+	}
 	if c.WantSample() {
 		c.Sample(key())
 	}
